@@ -656,3 +656,163 @@ Section Lap3.
     exists (d (0, 0, 0)%Z). intros p Hp. pose proof (Q3_zero_const d Q0 p Hp) as C. unfold d in C |- *. lra.
   Qed.
 End Lap3.
+
+(* ================================================================== solvability: the divergence sums to zero *)
+Section DivSum2.
+  Variable sc : smooth_cfg.
+  Variable sm : bool.
+  Variable sh : shape2 (T:=R).
+  Hypothesis Hnx : (0 < nxg sh)%Z.
+  Hypothesis Hny : (0 < nyg sh)%Z.
+  Notation Nx := (npmf (px sh) (nxg sh)).
+  Notation Ny := (npmf (py sh) (nyg sh)).
+  Notation g := (gval2 Rops sc sm sh).
+
+  (* the gradient seen one step below the PMF grid is the one seen at its last point: both are outside a
+     non-periodic gradient grid (zero), or the same bin of a periodic one *)
+  Lemma gval2_edge st ix : fst (wde2 sh ix) = true -> g st ix = (0, 0).
+  Proof. intros H. unfold gval2, get_grad2. destruct (wde2 sh ix) as [e ix']. cbn [fst] in H. subst e. reflexivity. Qed.
+
+  Lemma gval2_closes_x st j : g st (Nx - 1, j)%Z = g st (-1, j)%Z.
+  Proof.
+    destruct (px sh) eqn:Ep; unfold npmf.
+    - rewrite <- (gval2_wrap_fst Rops sc sm sh Hnx st (-1) j). rewrite Ep.
+      rewrite wrap1_mod, mod_minus_one by lia. reflexivity.
+    - rewrite !gval2_edge; [reflexivity | |]; unfold wde2, edge1; cbn [fst snd]; rewrite Ep.
+      + reflexivity.
+      + replace (nxg sh + 1 - 1)%Z with (nxg sh) by lia. rewrite Z.leb_refl, orb_true_r. reflexivity.
+  Qed.
+
+  Lemma gval2_closes_y st i : g st (i, Ny - 1)%Z = g st (i, -1)%Z.
+  Proof.
+    destruct (py sh) eqn:Ep; unfold npmf.
+    - rewrite <- (gval2_wrap_snd Rops sc sm sh Hny st i (-1)). rewrite Ep.
+      rewrite wrap1_mod, mod_minus_one by lia. reflexivity.
+    - rewrite !gval2_edge; [reflexivity | |]; unfold wde2, edge1; cbn [fst snd]; rewrite Ep.
+      + rewrite orb_true_r. reflexivity.
+      + replace (nyg sh + 1 - 1)%Z with (nyg sh) by lia. rewrite Z.leb_refl, !orb_true_r. reflexivity.
+  Qed.
+
+  Lemma div_value2_tele st i j :
+    div_value2 Rops sc sm sh st (i, j) =
+      / 2 * / wx sh * ((fst (g st (i, j - 1)%Z) + fst (g st (i, j))) - (fst (g st (i - 1, j - 1)%Z) + fst (g st (i - 1, j)%Z))) +
+      / 2 * / wy sh * ((snd (g st (i - 1, j)%Z) + snd (g st (i, j))) - (snd (g st (i - 1, j - 1)%Z) + snd (g st (i, j - 1)%Z))).
+  Proof.
+    unfold div_value2, div_formula2, nhalf. cbn [fst snd nadd nsub nmul ndiv n1 nofZ Rops]. unfold Rdiv. ring.
+  Qed.
+
+  Lemma divergence_sums_to_zero2 st : lsumR (div_value2 Rops sc sm sh st) (all_ix2 sh) = 0.
+  Proof.
+    pose proof (npmf_pos (px sh) (nxg sh) Hnx) as Px. pose proof (npmf_pos (py sh) (nyg sh) Hny) as Py.
+    rewrite lsumR_all_ix2.
+    set (HX := fun j i => fst (g st (i, j - 1)%Z) + fst (g st (i, j))).
+    set (HY := fun i j => snd (g st (i - 1, j)%Z) + snd (g st (i, j))).
+    rewrite (zsum_ext _ (fun i => zsum (fun j => / 2 * / wx sh * (HX j i - HX j (i - 1)%Z)) Ny +
+                                  zsum (fun j => / 2 * / wy sh * (HY i j - HY i (j - 1)%Z)) Ny)).
+    2:{ intros i Hi. rewrite <- zsum_plus. apply zsum_ext. intros j Hj. rewrite div_value2_tele. unfold HX, HY. ring. }
+    rewrite zsum_plus.
+    rewrite (zsum_swap (fun i j => / 2 * / wx sh * (HX j i - HX j (i - 1)%Z))).
+    rewrite (zsum_ext (fun j => zsum (fun i => / 2 * / wx sh * (HX j i - HX j (i - 1)%Z)) Nx) (fun _ => 0)).
+    2:{ intros j Hj. rewrite zsum_scal, zsum_tele by lia. unfold HX. rewrite !gval2_closes_x. ring. }
+    rewrite (zsum_ext (fun i => zsum (fun j => / 2 * / wy sh * (HY i j - HY i (j - 1)%Z)) Ny) (fun _ => 0)).
+    2:{ intros i Hi. rewrite zsum_scal, zsum_tele by lia. unfold HY. rewrite !gval2_closes_y. ring. }
+    rewrite !zsum_zero. ring.
+  Qed.
+End DivSum2.
+
+Section DivSum3.
+  Variable sc : smooth_cfg.
+  Variable sm : bool.
+  Variable sh : shape3 (T:=R).
+  Hypothesis Hnx : (0 < mxg sh)%Z.
+  Hypothesis Hny : (0 < myg sh)%Z.
+  Hypothesis Hnz : (0 < mzg sh)%Z.
+  Notation Nx := (npmf (qx sh) (mxg sh)).
+  Notation Ny := (npmf (qy sh) (myg sh)).
+  Notation Nz := (npmf (qz sh) (mzg sh)).
+  Notation g := (gval3 Rops sc sm sh).
+
+  Lemma gval3_edge st ix : fst (wde3 sh ix) = true -> g st ix = (0, 0, 0).
+  Proof. intros H. unfold gval3, get_grad3. destruct (wde3 sh ix) as [e ix']. cbn [fst] in H. subst e. reflexivity. Qed.
+
+  Lemma edge1_np_last n : edge1 false n (n + 1 - 1) = true.
+  Proof. unfold edge1. replace (n + 1 - 1)%Z with n by lia. rewrite Z.leb_refl, orb_true_r. reflexivity. Qed.
+  Lemma edge1_np_m1 n : edge1 false n (-1) = true.
+  Proof. reflexivity. Qed.
+
+  Lemma gval3_closes_x st b c : g st (Nx - 1, b, c)%Z = g st (-1, b, c)%Z.
+  Proof.
+    destruct (qx sh) eqn:Ep; unfold npmf.
+    - apply gval3_cong; try reflexivity; rewrite Ep; [reflexivity|].
+      rewrite !wrap1_mod, mod_minus_one by lia. apply Z.mod_small. lia.
+    - rewrite !gval3_edge; [reflexivity | |]; unfold wde3, i3x, i3y, i3z; cbn [fst snd]; rewrite Ep;
+        [rewrite edge1_np_m1 | rewrite edge1_np_last]; reflexivity.
+  Qed.
+
+  Lemma gval3_closes_y st a c : g st (a, Ny - 1, c)%Z = g st (a, -1, c)%Z.
+  Proof.
+    destruct (qy sh) eqn:Ep; unfold npmf.
+    - apply gval3_cong; try reflexivity; rewrite Ep; [reflexivity|].
+      rewrite !wrap1_mod, mod_minus_one by lia. apply Z.mod_small. lia.
+    - rewrite !gval3_edge; [reflexivity | |]; unfold wde3, i3x, i3y, i3z; cbn [fst snd]; rewrite Ep;
+        [rewrite edge1_np_m1 | rewrite edge1_np_last]; rewrite orb_true_r; reflexivity.
+  Qed.
+
+  Lemma gval3_closes_z st a b : g st (a, b, Nz - 1)%Z = g st (a, b, -1)%Z.
+  Proof.
+    destruct (qz sh) eqn:Ep; unfold npmf.
+    - apply gval3_cong; try reflexivity; rewrite Ep; [reflexivity|].
+      rewrite !wrap1_mod, mod_minus_one by lia. apply Z.mod_small. lia.
+    - rewrite !gval3_edge; [reflexivity | |]; unfold wde3, i3x, i3y, i3z; cbn [fst snd]; rewrite Ep;
+        [rewrite edge1_np_m1 | rewrite edge1_np_last]; rewrite orb_true_r; reflexivity.
+  Qed.
+
+  Definition HX3 st (j k i : Z) : R :=
+    t3x (g st (i, j - 1, k - 1)%Z) + t3x (g st (i, j - 1, k)%Z) + t3x (g st (i, j, k - 1)%Z) + t3x (g st (i, j, k)).
+  Definition HY3 st (i k j : Z) : R :=
+    t3y (g st (i - 1, j, k - 1)%Z) + t3y (g st (i - 1, j, k)%Z) + t3y (g st (i, j, k - 1)%Z) + t3y (g st (i, j, k)).
+  Definition HZ3 st (i j k : Z) : R :=
+    t3z (g st (i - 1, j - 1, k)%Z) + t3z (g st (i - 1, j, k)%Z) + t3z (g st (i, j - 1, k)%Z) + t3z (g st (i, j, k)).
+
+  Lemma div_value3_tele st i j k :
+    div_value3 Rops sc sm sh st (i, j, k) =
+      / 4 * / vx sh * (HX3 st j k i - HX3 st j k (i - 1)%Z) +
+      / 4 * / vy sh * (HY3 st i k j - HY3 st i k (j - 1)%Z) +
+      / 4 * / vz sh * (HZ3 st i j k - HZ3 st i j (k - 1)%Z).
+  Proof.
+    unfold div_value3, div_formula3, HX3, HY3, HZ3, i3x, i3y, i3z. cbn [fst snd nadd nsub nmul ndiv n1 nofZ Rops].
+    unfold Rdiv. ring.
+  Qed.
+
+  Lemma divergence_sums_to_zero3 st : lsumR (div_value3 Rops sc sm sh st) (all_ix3 sh) = 0.
+  Proof.
+    pose proof (npmf_pos (qx sh) (mxg sh) Hnx) as Px. pose proof (npmf_pos (qy sh) (myg sh) Hny) as Py.
+    pose proof (npmf_pos (qz sh) (mzg sh) Hnz) as Pz.
+    rewrite lsumR_all_ix3.
+    set (TX := fun i j k => / 4 * / vx sh * (HX3 st j k i - HX3 st j k (i - 1)%Z)).
+    set (TY := fun i j k => / 4 * / vy sh * (HY3 st i k j - HY3 st i k (j - 1)%Z)).
+    set (TZ := fun i j k => / 4 * / vz sh * (HZ3 st i j k - HZ3 st i j (k - 1)%Z)).
+    rewrite (zsum_ext _ (fun i => zsum (fun j => zsum (fun k => TX i j k) Nz) Ny +
+                                  zsum (fun j => zsum (fun k => TY i j k) Nz) Ny +
+                                  zsum (fun j => zsum (fun k => TZ i j k) Nz) Ny)).
+    2:{ intros i Hi. rewrite <- !zsum_plus. apply zsum_ext. intros j Hj. rewrite <- !zsum_plus.
+        apply zsum_ext. intros k Hk. rewrite div_value3_tele. reflexivity. }
+    rewrite !zsum_plus.
+    assert (H1 : zsum (fun i => zsum (fun j => zsum (fun k => TX i j k) Nz) Ny) Nx = 0).
+    { rewrite (zsum_swap (fun i j => zsum (fun k => TX i j k) Nz)).
+      rewrite (zsum_ext _ (fun _ => 0)); [apply zsum_zero|]. intros j Hj.
+      rewrite (zsum_swap (fun i k => TX i j k)).
+      rewrite (zsum_ext _ (fun _ => 0)); [apply zsum_zero|]. intros k Hk.
+      unfold TX. rewrite zsum_scal, zsum_tele by lia. unfold HX3. rewrite !gval3_closes_x. ring. }
+    assert (H2 : zsum (fun i => zsum (fun j => zsum (fun k => TY i j k) Nz) Ny) Nx = 0).
+    { rewrite (zsum_ext _ (fun _ => 0)); [apply zsum_zero|]. intros i Hi.
+      rewrite (zsum_swap (fun j k => TY i j k)).
+      rewrite (zsum_ext _ (fun _ => 0)); [apply zsum_zero|]. intros k Hk.
+      unfold TY. rewrite zsum_scal, zsum_tele by lia. unfold HY3. rewrite !gval3_closes_y. ring. }
+    assert (H3 : zsum (fun i => zsum (fun j => zsum (fun k => TZ i j k) Nz) Ny) Nx = 0).
+    { rewrite (zsum_ext _ (fun _ => 0)); [apply zsum_zero|]. intros i Hi.
+      rewrite (zsum_ext _ (fun _ => 0)); [apply zsum_zero|]. intros j Hj.
+      unfold TZ. rewrite zsum_scal, zsum_tele by lia. unfold HZ3. rewrite !gval3_closes_z. ring. }
+    rewrite H1, H2, H3. ring.
+  Qed.
+End DivSum3.
